@@ -95,8 +95,32 @@ def escapedUnicode (a b c d : Nat) : Option Nat :=
   | some x, some y, some z, some w => some (4096 * x + 256 * y + 16 * z + w)
   | _, _, _, _ => none
 
+/-- `\uXXXX` denotes a UTF-16 CODE UNIT (§2.9.4 reads the escapes as code units): high / low surrogate units -/
+def isHighUnit (u : Nat) : Bool := 0xD800 ≤ u && u ≤ 0xDBFF
+def isLowUnit (u : Nat) : Bool := 0xDC00 ≤ u && u ≤ 0xDFFF
+
+/-- the character a high unit directly followed by a low unit denotes -/
+def combineUnits (hi lo : Nat) : Nat := 0x10000 + (hi - 0xD800) * 0x400 + (lo - 0xDC00)
+
+/-- a high unit `hi` followed by the six characters `e1 e2 a b c d`: if they are a `\uXXXX` escape of a LOW unit,
+    the character the pair denotes -/
+def pairedUnits (hi e1 e2 a b c d : Nat) : Option Nat :=
+  if isHighUnit hi ∧ e1 = 92 ∧ e2 = 117 then
+    match escapedUnicode a b c d with
+    | some lo => if isLowUnit lo then some (combineUnits hi lo) else none
+    | none => none
+  else none
+
+/-- the text directly after a high unit `hi`: the character denoted if it starts with a `\uXXXX` LOW unit escape -/
+def pairedAt (hi : Nat) : Text → Option Nat
+  | e1 :: e2 :: a :: b :: c :: d :: _ => pairedUnits hi e1 e2 a b c d
+  | _ => none
+
 /-- StringCharacter* (the part of a quoted StringValue between the quotes) and its semantic value:
-    SourceCharacter but not `"` or `\` or LineTerminator | `\u` EscapedUnicode | `\` EscapedCharacter -/
+    SourceCharacter but not `"` or `\` or LineTerminator | `\u` EscapedUnicode | `\` EscapedCharacter.
+    The value of a run of `\u` escapes is the text their code units form in UTF-16: a high-surrogate escape DIRECTLY
+    followed by a low-surrogate escape is one (astral) character; an unpaired surrogate escape stays a lone code point;
+    literal characters are never combined (reading recorded in ASSUMPTIONS of corr/C02_spans.py, hunter finding C02/1). -/
 def stringCharacters : Text → Option Text
   | [] => some []
   | c :: t =>
@@ -108,9 +132,16 @@ def stringCharacters : Text → Option Text
           -- `\u` EscapedUnicode
           match t1 with
           | a :: b :: c' :: d :: t2 =>
-            match escapedUnicode a b c' d, stringCharacters t2 with
-            | some u, some v => some (u :: v)
-            | _, _ => none
+            match escapedUnicode a b c' d with
+            | none => none
+            | some u =>
+              match pairedAt u t2 with
+              | some cp =>
+                -- surrogate pair: one character; the low escape (six characters) is consumed
+                match t2 with
+                | _ :: _ :: _ :: _ :: _ :: _ :: t3 => (stringCharacters t3).map (cp :: ·)
+                | _ => none
+              | none => (stringCharacters t2).map (u :: ·)
           | _ => none
         else
           -- `\` EscapedCharacter
